@@ -477,3 +477,160 @@ def token_idents(ts):
         elif kind(t) == "Group":
             out.extend(token_idents(t["stream"]))
     return out
+
+
+# ---------------------------------------------------------------- structural rendering
+
+BINOPS = {
+    "Add": "+", "Sub": "-", "Mul": "*", "Div": "/", "Rem": "%", "And": "&&", "Or": "||", "BitXor": "^", "BitAnd": "&", "BitOr": "|",
+    "Shl": "<<", "Shr": ">>", "Eq": "==", "Lt": "<", "Le": "<=", "Ne": "!=", "Ge": ">=", "Gt": ">", "AddAssign": "+=", "SubAssign": "-=",
+    "MulAssign": "*=", "DivAssign": "/=", "RemAssign": "%=", "BitXorAssign": "^=", "BitAndAssign": "&=", "BitOrAssign": "|=", "ShlAssign": "<<=", "ShrAssign": ">>=",
+}
+
+
+def render_path(p):
+    segs = []
+    for seg in p["segments"]:
+        s = seg["ident"]["sym"]
+        a = seg.get("arguments")
+        if isinstance(a, dict) and kind(a) == "PathArguments::AngleBracketed":
+            inner = a.get("0", a)
+            s += "::<" + ",".join(render_generic_arg(x) for x in inner["args"]) + ">"
+        segs.append(s)
+    return ("::" if p.get("leading_colon") else "") + "::".join(segs)
+
+
+def render_generic_arg(a):
+    k = kind(a)
+    if k == "GenericArgument::Type":
+        return render_type(a["0"])
+    return k or "?"
+
+
+def render_type(t):
+    k = kind(t)
+    if k == "Type::Path":
+        return render_path(t["path"])
+    if k == "Type::Reference":
+        return "&" + ("mut " if t.get("mutability") else "") + render_type(t["elem"])
+    if k == "Type::Tuple":
+        return "(" + ",".join(render_type(x) for x in t["elems"]) + ")"
+    if k == "Type::Infer":
+        return "_"
+    return k or "?"
+
+
+def render_lit(l):
+    k = kind(l)
+    if k == "Lit::Bool":
+        return "true" if l.get("value") else "false"
+    tok = l.get("token")
+    if isinstance(tok, dict):
+        return tok.get("repr", "?")
+    return "?"
+
+
+def render_pat(p):
+    k = kind(p)
+    if k == "Pat::Ident":
+        return ("ref " if p.get("by_ref") else "") + ("mut " if p.get("mutability") else "") + p["ident"]["sym"]
+    if k == "Pat::Wild":
+        return "_"
+    if k == "Pat::Tuple":
+        return "(" + ",".join(render_pat(x) for x in p["elems"]) + ")"
+    if k == "Pat::TupleStruct":
+        return render_path(p["path"]) + "(" + ",".join(render_pat(x) for x in p["elems"]) + ")"
+    if k == "Pat::Path":
+        return render_path(p["path"])
+    if k == "Pat::Reference":
+        return "&" + render_pat(p["pat"])
+    if k == "Pat::Type":
+        return render_pat(p["pat"])
+    if k == "Pat::Lit":
+        return render_lit(p["lit"])
+    if k == "Pat::Or":
+        return "|".join(render_pat(x) for x in p["cases"])
+    if k == "Pat::Struct":
+        return render_path(p["path"]) + "{" + ",".join((f["member"]["0"]["sym"] if kind(f["member"]) == "Member::Named" else str(f["member"]["0"]["index"])) + ":" + render_pat(f["pat"]) for f in p["fields"]) + ("," if p["fields"] and p.get("rest") else "") + (".." if p.get("rest") else "") + "}"
+    if k == "Pat::Rest":
+        return ".."
+    return k or "?"
+
+
+def render(e):
+    """canonical, whitespace-free text of an expression (structure, not source slicing)"""
+    k = kind(e)
+    if k is None:
+        return "?"
+    if k == "Expr::Path":
+        return render_path(e["path"])
+    if k == "Expr::Lit":
+        return render_lit(e["lit"])
+    if k == "Expr::MethodCall":
+        tf = ""
+        if e.get("turbofish"):
+            tf = "::<" + ",".join(render_generic_arg(x) for x in e["turbofish"]["args"]) + ">"
+        return render(e["receiver"]) + "." + e["method"]["sym"] + tf + "(" + ",".join(render(a) for a in e["args"]) + ")"
+    if k == "Expr::Call":
+        return render(e["func"]) + "(" + ",".join(render(a) for a in e["args"]) + ")"
+    if k == "Expr::Field":
+        m = e["member"]
+        return render(e["base"]) + "." + (m["0"]["sym"] if kind(m) == "Member::Named" else str(m["0"]["index"]))
+    if k == "Expr::Index":
+        return render(e["expr"]) + "[" + render(e["index"]) + "]"
+    if k == "Expr::Range":
+        lim = ".." if kind(e["limits"]) == "RangeLimits::HalfOpen" else "..="
+        return (render(e["start"]) if e.get("start") else "") + lim + (render(e["end"]) if e.get("end") else "")
+    if k == "Expr::Reference":
+        return "&" + ("mut " if e.get("mutability") else "") + render(e["expr"])
+    if k == "Expr::Unary":
+        op = {"UnOp::Not": "!", "UnOp::Neg": "-", "UnOp::Deref": "*"}.get(kind(e["op"]), "?")
+        return op + render(e["expr"])
+    if k == "Expr::Binary":
+        op = BINOPS.get((kind(e["op"]) or "").replace("BinOp::", ""), "?")
+        return render(e["left"]) + op + render(e["right"])
+    if k == "Expr::Assign":
+        return render(e["left"]) + "=" + render(e["right"])
+    if k in ("Expr::Paren", "Expr::Group"):
+        return "(" + render(e["expr"]) + ")"
+    if k == "Expr::Tuple":
+        return "(" + ",".join(render(x) for x in e["elems"]) + ")"
+    if k == "Expr::Array":
+        return "[" + ",".join(render(x) for x in e["elems"]) + "]"
+    if k == "Expr::Try":
+        return render(e["expr"]) + "?"
+    if k == "Expr::Cast":
+        return render(e["expr"]) + " as " + render_type(e["ty"])
+    if k == "Expr::Closure":
+        return "|" + ",".join(render_pat(p) for p in e["inputs"]) + "|" + render(e["body"])
+    if k == "Expr::Macro":
+        return render_path(e["mac"]["path"]) + "!(" + tokens_text(e["mac"]["tokens"]).replace(" ", "") + ")"
+    if k == "Expr::Block":
+        return "{" + ";".join(render_stmt(s) for s in e["block"]["stmts"]) + "}"
+    if k == "Expr::If":
+        s = "if " + render(e["cond"]) + "{" + ";".join(render_stmt(x) for x in e["then_branch"]["stmts"]) + "}"
+        if e.get("else_branch"):
+            s += "else " + render(e["else_branch"][1])
+        return s
+    if k == "Expr::Let":
+        return "let " + render_pat(e["pat"]) + "=" + render(e["expr"])
+    if k == "Expr::Match":
+        return "match " + render(e["expr"]) + "{" + ",".join(render_pat(a["pat"]) + (" if " + render(a["guard"][1]) if a.get("guard") else "") + "=>" + render(a["body"]) for a in e["arms"]) + "}"
+    if k == "Expr::Struct":
+        return render_path(e["path"]) + "{" + ",".join((f["member"]["0"]["sym"] if kind(f["member"]) == "Member::Named" else "?") + ":" + render(f["expr"]) for f in e["fields"]) + "}"
+    if k == "Expr::Return":
+        return "return " + (render(e["expr"]) if e.get("expr") else "")
+    if k == "Expr::Break":
+        return "break"
+    return k
+
+
+def render_stmt(s):
+    k = kind(s)
+    if k == "Stmt::Local":
+        return "let " + render_pat(s["pat"]) + ("=" + render(s["init"]["expr"]) if s.get("init") else "")
+    if k == "Stmt::Expr":
+        return render(s["0"])
+    if k == "Stmt::Macro":
+        return render_path(s["mac"]["path"]) + "!(" + tokens_text(s["mac"]["tokens"]).replace(" ", "") + ")"
+    return k or "?"
